@@ -94,6 +94,8 @@ pub fn prof_c05(t: Tier) -> Profile {
 pub fn prof_c06(t: Tier) -> Profile {
     let mut p = Profile::base("c06");
     p.weird_cutoffs = true;
+    // deferred writes (also of equal values, to variables whose cutoff does not suppress them)
+    p.writers = crate::choice::dv() >= 2;
     sized(p, t)
 }
 pub fn prof_c07(t: Tier) -> Profile {
